@@ -158,7 +158,7 @@ def pair_check(ctx, hs, na, nb, a, b, a2):
 def shards(tier, seed):
     out = [{'part': 'pairs', 'slice': [i, 4]} for i in range(4)]
     out.append({'part': 'singletons'})
-    ng = 60 if tier == 'quick' else 400
+    ng = 480 if tier == 'quick' else 6000
     for i in range(8):
         out.append({'part': 'grids', 'n': ng // 8 + 1, 'sub': i})
     return out
@@ -237,6 +237,33 @@ def cell_mutations(old, r):
         yield 'content', ('date', old[1], old[2], 1 if old[3] != 1 else 2)
     elif k == 'time':
         yield 'content', ('time', old[1], (old[2] + 1) % 60, old[3], old[4])
+    elif k == 'xstr':
+        # (b64: in front - text after the padding would be ignored by a decoder, which is no material difference)
+        yield 'content', ('xstr', old[1], old[2] + '00' if old[1] == 'hex' else 'AAAA' + old[2] if old[1] == 'b64' else old[2] + 'x')
+    elif k == 'list':
+        # one element more, one less, one changed (so that one list is a prefix of the other, or differs inside)
+        yield 'content:longer', ('list', old[1] + (('str', 'extra'),))
+        if old[1]:
+            yield 'content:shorter', ('list', old[1][:-1])
+            for label, new in cell_mutations(old[1][-1], r):
+                if label.startswith('content'):
+                    yield 'content:inside', ('list', old[1][:-1] + (new,))
+                    break
+    elif k == 'dict':
+        yield 'content:longer', ('dict', old[1] + (('zzExtra', D.MARKER),))
+        if old[1]:
+            yield 'content:shorter', ('dict', old[1][:-1])
+            yield 'content:renamed', ('dict', old[1][:-1] + ((old[1][-1][0] + 'X', old[1][-1][1]),))
+            for label, new in cell_mutations(old[1][-1][1], r):
+                if label.startswith('content'):
+                    yield 'content:inside', ('dict', old[1][:-1] + ((old[1][-1][0], new),))
+                    break
+    elif k == 'grid':
+        _, gv, gm, gc, gr = old
+        yield 'content:longer', ('grid', gv, gm, gc, gr + (((gc[0][0], ('str', 'extra')),),))
+        if gr:
+            yield 'content:shorter', ('grid', gv, gm, gc, gr[:-1])
+        yield 'content:meta', ('grid', gv, gm + (('zzNewMeta', D.MARKER),), gc, gr)
 
 
 def run_shard(spec, ctx):
@@ -331,7 +358,16 @@ def run_shard(spec, ctx):
 def grid_case(ctx, hs, n, r, only=None):
     g = hs.to_grid(n)
     enc = D.enc(n)
-    for how, other in (('rebuilt', hs.to_grid(n)), ('deepcopy', copy.deepcopy(g)), ('self', g)):
+    import hszinc
+    copies = [('rebuilt', hs.to_grid(n)), ('deepcopy', copy.deepcopy(g)), ('self', g)]
+    # its own round trip through either format (the statement's example of a faithful copy)
+    for mname, mode in (('zinc', hszinc.MODE_ZINC), ('json', hszinc.MODE_JSON)):
+        try:
+            copies.append((mname + '-roundtrip', hszinc.parse(hszinc.dump(g, mode=mode), mode=mode)))
+            ctx.count('round-trip copies compared')
+        except Exception:
+            ctx.count('round trip failed (C01/C02 business)')
+    for how, other in copies:
         ctx.case('grid-copy', enc, how, nontrivial=False)
         eq, ne = outcome(lambda: g == other), outcome(lambda: g != other)
         ctx.count('grid vs faithful copy')
